@@ -4,7 +4,8 @@
    times/durations in the same unit (the harness uses nanoseconds, tps = 10^9).
    opcode: 0 fail 1 succ 2 query 3 ban(arg=dur) 4 unban 5 cleanup 6 bladd(arg=dur) 7 blrm 8 wladd 9 wlrm
            10 allowed 11 blcleanup 12 allowip(arg=n) 13 rlcleanup 14 handshake(arg: 0 bad id, 1 ClientID 0 registering token ok, 2 same with failing credential generation,
-                        3 ClientID 0 with a token that does not register; the driver maps (kind, token form) through the probed table)
+                        3 ClientID 0 with a token that does not register; 4+10c phase 1 on connection c; 5+10c / 6+10c wrong / correct
+                        phase-2 response on connection c; the driver maps (kind, token form) through the probed table)
            15 restart (all components rebuilt over the same storage);  ip >= 1000 is a CIDR key (see Model/Lockout.v keys_of)
    A step is compared only where its mask is 1 (the driver masks the steps whose model answer is not the same
    under all perturbed time lines). *)
@@ -15,12 +16,15 @@ Definition vz (v : tval) : Z := Z.of_N (vn v).
 
 Definition dec_variant (v : tval) : variant :=
   {| cond_unban := vbool (vnth 0 v); keep_stronger := vbool (vnth 1 v); anon_resets := vbool (vnth 3 v);
-     first_match := vn (vnth 4 v) |}.
+     skip_gate_p2 := false; first_match := vn (vnth 4 v) |}.
 Definition dec_cfg (v : tval) : cfg :=
   {| maxf := vz (vnth 0 v); window := vz (vnth 1 v); band := vz (vnth 2 v); perm := vz (vnth 3 v);
      rate := vz (vnth 4 v); burst := vz (vnth 5 v); ttl := vz (vnth 6 v); tps := vz (vnth 7 v) |}.
 Definition dec_kind (a : N) : hkind :=
-  match a with 0%N => HBad | 1%N => HAnonOk | 2%N => HAnonFail | _ => HZeroJunk end.
+  match (a mod 10)%N with
+  | 0%N => HBad | 1%N => HAnonOk | 2%N => HAnonFail | 3%N => HZeroJunk
+  | 4%N => HP1 (a / 10) | 5%N => HP2 (a / 10) false | _ => HP2 (a / 10) true
+  end.
 Definition dec_call (code ip arg : N) : call :=
   match code with
   | 0%N => CFail ip | 1%N => CSucc ip | 2%N => CQuery ip | 3%N => CBan ip (Z.of_N arg) | 4%N => CUnban ip
